@@ -27,7 +27,7 @@
 EXTENDS SchemaDecl
 
 Case(s, good, bad, ngood, nbad, fault, key) ==
-    [s |-> s, good |-> good, bad |-> bad, ngood |-> ngood, nbad |-> nbad, path |-> <<>>, fault |-> fault, key |-> key]
+    [s |-> s, good |-> good, bad |-> bad, ngood |-> ngood, nbad |-> nbad, path |-> <<>>, fault |-> fault, key |-> key, st |-> FALSE]
 \* a leaf whose raw and native forms coincide
 Same(s, good, bad, fault) == Case(s, good, bad, good, Some(bad), fault, "")
 \* a fault that exists in raw form only (a representation no native value has)
@@ -81,7 +81,7 @@ LeafCases ==
 \* ------------------------------------------------------------------ containers on the way
 ContainerKindsOnPath == {"list", "map", "object", "oneof", "struct"}
 NB(c, mk(_)) == IF c.nbad.some THEN Some(mk(c.nbad.v)) ELSE None
-Wrap(kind, c) ==
+Around(kind, c) ==
     CASE kind = "list" ->       \* the faulty element is the second item: index 1
             LET mk(x) == L("any", <<c.good, x>>)
                 mkn(x) == L("typed", <<c.ngood, x>>)
@@ -107,18 +107,21 @@ Wrap(kind, c) ==
             LET mk(x) == M("any_any", << <<Str("x"), x>> >>)
             IN [c EXCEPT !.s = ObjectS("T", << Prop("x", c.s, TRUE) >>, "ptrs", FALSE),
                          !.good = mk(c.good), !.bad = mk(c.bad), !.ngood = Struct("ptrs", << <<"x", Some(c.ngood)>> >>),
-                         !.nbad = IF c.nbad.some THEN Some(Struct("ptrs", << <<"x", Some(c.nbad.v)>> >>)) ELSE None, !.path = <<"x">> \o c.path]
+                         !.nbad = IF c.nbad.some THEN Some(Struct("ptrs", << <<"x", Some(c.nbad.v)>> >>)) ELSE None, !.path = <<"x">> \o c.path,
+                         !.st = TRUE]
 
 \* what a struct field of type any can hold: any / one-of / map-based objects
 FitsAnyField(s) == s.kind \in {"any", "oneof"} \/ (s.kind = "object" /\ s.layout = "map")
-CanWrap(kind, c) == kind # "struct" \/ FitsAnyField(c.s)
+\* (a one-of validates a map-based member's data with the compatibility rules first, which know no
+\* struct values: struct-mapped objects are not placed below a one-of here)
+CanWrap(kind, c) == (kind # "struct" \/ FitsAnyField(c.s)) /\ (kind = "oneof" => ~c.st)
 
 RECURSIVE Cases(_)
 \* all cases with at most n containers on the way
 Cases(n) ==
     IF n = 0 THEN LeafCases
     ELSE LET inner == Cases(n - 1) IN
-         inner \cup {Wrap(k, c) : k \in ContainerKindsOnPath, c \in {d \in inner : Len(d.path) <= n + 1}} \ {c \in {} : TRUE}
+         inner \cup {Around(p[1], p[2]) : p \in {q \in ContainerKindsOnPath \X inner : CanWrap(q[1], q[2])}}
 ExpectedPath(c) == c.path
 
 \* ------------------------------------------------------------------ on the model
